@@ -13,7 +13,7 @@ CONSTANT CMax
 CONSTANT Variant      \* "ok" | "trunc_first" (F2) | "halfdown_tie" | "cmp_sign" | "rem_loop"
 S == INSTANCE FpDec WITH ZAdd <- IAdd, ZSub <- ISub, ZMul <- IMul, ZCmp <- ICmp, ZFloorDivMod <- IFloorDivMod, ZLit <- ILit,
        ZNeg <- INeg, ZAbs <- IAbs, ZSign <- ISign, ZIsEven <- IIsEven, ZMod5Is0 <- IMod5Is0, ZPow10 <- IPow10, ZPow2 <- IPow2,
-       ZDigits <- IDigits, MaxFrac <- 2, CoeffBits <- 7
+       ZDigits <- IDigits, MaxFrac <- 2, CoeffBits <- 7, CoeffMax <- 127, CoeffMin <- -128, MaxDigits <- 3
 In8(z) == -128 <= z /\ z <= 127
 Abs(z) == IF z < 0 THEN 0 - z ELSE z
 Sgn(z) == IF z < 0 THEN -1 ELSE IF z > 0 THEN 1 ELSE 0
